@@ -179,6 +179,8 @@ def stmt_src(s) -> str:
 
 
 def prog_src(stmts) -> str:
+    if getattr(stmts, "bare", False):      # elab.TopSeq: a sequence of compound statements
+        return " ".join(stmt_src(s) for s in stmts)
     return "{ " + " ".join(stmt_src(s) for s in stmts) + " }"
 
 
